@@ -73,6 +73,14 @@ def run(ctx):
           'the pillar is the same via the lunar date, the sexagenary-day view, the instant view and the civil date, and advances by one per civil day across lunar month ends, year ends and the 1582 cut-over; same for the weekday',
           lambda x: '%d-%02d-%02d' % CAL.from_jdn(x[1]), fn_site(p, 'SixtyCycleDay::from_solar_day'))
 
+    # ---- the lunar route needs the REAL month records to tile across lunar years (shared with C02 / C03): where they do not, the lunar date of a civil
+    # day - and with it the pillar obtained through it - is wrong
+    from rules import c03 as _c03
+    try:
+        _c03.chain_rule(ctx, _c03.leap_table(ctx.interp()))
+    except (Unanalysable, Bottom) as u:
+        ctx.unanalysable('TILE-CHAIN', 'TILE:LunarMonth::new:offsets', str(u))
+
     # ---- the two ends of the supported range (first days of 0001, last days of 9999, last lunar year)
     from rules import range_end as _re
     _Ie = ctx.interp(fuel=50000000)
